@@ -397,7 +397,13 @@ class DQN(RLAlgorithm):
 
                     action_mask = info.get("action_mask", None)
                     action = self.get_action(obs, epsilon=0.0, action_mask=action_mask)
+                    # A single (non-vectorised) environment takes one action and
+                    # returns plain flags
+                    if not hasattr(env, "num_envs"):
+                        action = action[0]
                     obs, reward, done, trunc, info = env.step(action)
+                    if not hasattr(env, "num_envs"):
+                        done, trunc = [done], [trunc]
                     step += 1
                     scores += np.array(reward)
                     for idx, (d, t) in enumerate(zip(done, trunc)):
